@@ -86,8 +86,12 @@ func validAWS(spool []byte) bool {
 	// attributes are the only typed fields
 	var v struct {
 		Updates []struct {
-			Issued  struct{ Date string `xml:"date,attr"` } `xml:"issued"`
-			Updated struct{ Date string `xml:"date,attr"` } `xml:"updated"`
+			Issued struct {
+				Date string `xml:"date,attr"`
+			} `xml:"issued"`
+			Updated struct {
+				Date string `xml:"date,attr"`
+			} `xml:"updated"`
 		} `xml:"update"`
 	}
 	if !validXMLInto(plain, &v) {
